@@ -52,17 +52,21 @@ class Gen:
             self.theme = rng.choice(["precond", "roots", "derive", "lazy"])
             if self.theme == "precond":
                 self.recipes = rng.sample(["AddedDiag", "AddedDiag", "KroneckerAddedDiag", "LowRankRootAddedDiag", "Dense", "Toeplitz", "Root"], 3) + ["AddedDiag"]
-                self.queries = ["logdet", "inv_quad_logdet", "preconditioner", "solve", "inv_quad"] + rng.sample(world.PSD_QUERIES, 2)
+                self.queries = ["logdet", "inv_quad_logdet", "preconditioner", "solve", "inv_quad", "pivoted_cholesky"] + rng.sample(world.PSD_QUERIES, 2)
                 self.derives = rng.sample(["add_jitter", "add_diagonal", "mul_scalar", "getitem", "expand", "clone", "add_op"], 3)
-                self._theme_flippable = ["max_preconditioner_size"] * 7 + ["min_preconditioning_size", "max_cholesky_size", "fast_log_prob", "fast_solves",
-                                                                           "preconditioner_tolerance", "num_trace_samples", "deterministic_probes"]
+                self._theme_flippable = ["max_preconditioner_size"] * 7 + ["preconditioner_tolerance"] * 4 + [
+                    "min_preconditioning_size", "max_cholesky_size", "fast_log_prob", "fast_solves", "num_trace_samples", "deterministic_probes"]
                 self.focus_classes = ("AddedDiagLinearOperator", "KroneckerProductAddedDiagLinearOperator", "LowRankRootAddedDiagLinearOperator")
                 self.steps = rng.randint(8, 14) if tier != "thorough" else rng.randint(8, 26)
                 self._theme_initial = [("max_cholesky_size", 0), ("min_preconditioning_size", 0), ("cg_tolerance", 1e-9),
                                        ("max_preconditioner_size", rng.choice([2, 3, 15]))]
             elif self.theme == "roots":
                 self.queries = ["root_decomposition", "root_inv_decomposition", "diagonalization", "cholesky", "samples", "svd",
-                                "inv_quad_logdet", "eigh"] + rng.sample(world.PSD_QUERIES, 2)
+                                "inv_quad_logdet", "eigh", "logdet", "solve"] + rng.sample(world.PSD_QUERIES, 2)
+                if rng.random() < 0.5:
+                    # start in the iterative regime, possibly with a truncated Lanczos budget, so that approximate factors get
+                    # cached before the regime flips back
+                    self._theme_initial = [("max_cholesky_size", 0), ("max_root_decomposition_size", rng.choice([2, 3, 100]))]
                 self.derives = ["add_low_rank", "cat_rows"] + rng.sample(ALL_DERIVES, 2)
                 self._theme_flippable = ["max_cholesky_size", "max_root_decomposition_size", "fast_root", "fast_log_prob", "tridiagonal_jitter", "ciq_samples"]
             elif self.theme == "derive":
@@ -77,7 +81,7 @@ class Gen:
                 self.derives = ["getitem", "mT", "evaluate_kernel", "rebuild_repr", "add_jitter", "mul_scalar", "expand"]
             self.qweight = {q: self.qweight.get(q, 2) for q in self.queries}
             if self.theme == "precond":
-                self.qweight.update({"preconditioner": 6, "logdet": 4, "inv_quad_logdet": 4})
+                self.qweight.update({"preconditioner": 6, "logdet": 4, "inv_quad_logdet": 4, "pivoted_cholesky": 4})
             self.p_focus = 0.9
         self.fault_kinds = [] if rng.random() < 0.5 else rng.sample(FAULT_KINDS, rng.randint(1, 3))
         if "cb" in self.fault_kinds and not ({"User", "Kernel"} & set(self.recipes)):
@@ -552,7 +556,7 @@ class Gen:
             if rng.random() < 0.7 or not a["logdet"]:
                 a["rhs"] = rhs(vec_ok=False)
         elif qname == "pivoted_cholesky":
-            a = {"rank": rng.choice([1, 2, n, n + 3])}
+            a = {"rank": rng.choice([2, n, n, n + 3])}
         elif qname == "sqrt_inv_matmul":
             a = {"rhs": rhs(vec_ok=False)}
             if rng.random() < 0.3:
